@@ -98,7 +98,10 @@ def r_cli_case_insensitive(r, prog):
     fns = [f for f in prog.fns.values() if f.path.startswith(upd.path)]
     cmp_exact = []
     cmp_ci = []
-    fns = [f for f in fns if any(c.name() == 'code' and 'Lint' in (c.resolved or '') for c in f.calls())]
+    # a function together with its closures is one unit: the code may be fetched outside the closure that compares it
+    root = lambda f: re.sub(r'(::\{closure#\d+\})+$', '', f.path)
+    with_code = {root(f) for f in fns if any(c.name() == 'code' and 'Lint' in (c.resolved or '') for c in f.calls())}
+    fns = [f for f in fns if root(f) in with_code]
     if not fns:
         raise AnchorMissing('comparison with Lint::code() in into_updated')
     for f in fns:
